@@ -71,6 +71,21 @@ Theorem pool_style_order_free : forall ci l l',
 Proof. exact learn_all_style_perm. Qed.
 Print Assumptions pool_style_order_free.
 
+(* report columns (justify(), the default balance/register formats): the quotes of an unusual symbol are dropped
+   only from a symbol that is set apart from the number by a space, contains no space and is not a number itself;
+   a symbol joined to its number is always shown exactly as amount_text shows it *)
+Theorem column_quotes_dropped_only_when_separated : forall st sym,
+  column_symbol_text st sym = symbol_text sym \/
+  (column_symbol_text st sym = sym /\ st_separated st = true /\
+   existsb (fun c => c =? 32) sym = false /\ forallb is_digit sym = false).
+Proof. exact column_symbol_text_cases. Qed.
+Print Assumptions column_quotes_dropped_only_when_separated.
+
+Theorem column_text_of_joined_symbol_is_full_text : forall cp st a,
+  st_separated st = false -> amount_text_col cp st a = amount_text cp st a.
+Proof. exact column_text_unseparated. Qed.
+Print Assumptions column_text_of_joined_symbol_is_full_text.
+
 (* print -> re-read, plain decimal texts (digits and a decimal point): the reader recovers
    exactly the integer and the precision that were printed.  PARTIAL: thousands marks, decimal
    comma, symbol placement and quoting are covered by the correspondence check only. *)
